@@ -29,7 +29,12 @@ def run(ctx):
     base = pc.family_faults(False, ctx.seed) + pc.family_faults(True, ctx.seed) + pc.family_gates(False) + pc.family_gates(True) + \
         pc.family_overflow(False) + pc.family_retry0()
     if quick:
-        base = base[:260]
+        # quick: every scenario of the small families (exhausted budgets, gates, overflow, Retry.Max=0 - plain and idempotent)
+        # and a seeded sample of the fault matrix, instead of a prefix of the list
+        small = [x for x in base if x["family"] not in ("faults1", "faults2")]
+        big = [x for x in base if x["family"] in ("faults1", "faults2")]
+        rnd.shuffle(big)
+        base = small + big[:max(0, 260 - len(small))]
     cps = pc.close_points(base, 4 if quick else 1, rnd) + pc.family_create_unreachable()
     pst, ptr, pdet = pc.model_check(ctx, ["MCProducer.small.cfg", "MCProducer.idem.cfg", "MCProducer.live.cfg", "MCProducer.liveidem.cfg"] if quick
                                    else ["MCProducer.quick.cfg", "MCProducer.idem.cfg", "MCProducer.live.cfg", "MCProducer.liveidem.cfg"])
